@@ -559,6 +559,7 @@ static std::vector<Scenario> publish_scenarios(uint32_t mon, int tier, uint32_t 
     { auto s = base("P3-burst-121", {RUN(), PUB(1, 1), PUB(2, 2), PUB(1, 3)}, fam & ~(F_WRSHORT), tier ? 2 : 1, mon); v.push_back(s); }
     { auto s = base("P4-sequential-id-reuse", {RUN(), PUB(1, 1), BARRIER(), PUB(2, 2), BARRIER(), PUB(1, 3)}, fam & ~(F_WRSHORT | F_CHUNK | F_NOREPLY | F_LOSS | F_HS | F_CONN), tier ? 3 : 2, mon); v.push_back(s); }
     { auto s = base("P8-same-qos-id-reuse", {RUN(), PUB(1, 1), BARRIER(), PUB(1, 2), BARRIER(), PUB(2, 3), BARRIER(), PUB(2, 4)}, F_WR | F_REORDER | F_RDCUT | F_TAIL | F_DELAY | F_BCLOSE, tier ? 3 : 2, mon); s.broker.ack_props = true; v.push_back(s); }
+    { auto s = base("P9-finenet-121", {RUN(), PUB(1, 1), PUB(2, 2), PUB(1, 3)}, F_FINENET | F_REORDER | F_WR | F_RDCUT, 2, mon); s.broker.ack_props = true; v.push_back(s); s.name = "P9-finenet-rm1"; s.broker.connack_props = {ref::pnum(0x21, 1)}; v.push_back(s); s.name = "P9-finenet-tcp"; s.flavour = 1; v.push_back(s); }
     { auto s = base("P5-qos2-failing-pubrec", {RUN(), PUB(2, 1), PUB(1, 2)}, fam & ~(F_WRSHORT | F_CHUNK), tier ? 2 : 1, mon); s.broker.pubrec_rc = 0x97; v.push_back(s); }
     { auto s = base("P6-tcp-qos1-qos2", {RUN(), PUB(1, 1), PUB(2, 2)}, fam & ~(F_WRSHORT | F_CHUNK), tier ? 2 : 1, mon); s.flavour = 1; v.push_back(s); }
     { auto s = base("P7-two-brokers", {RUN(), PUB(1, 1), PUB(2, 2)}, F_CONN | F_HS | F_WR | F_RDCUT | F_BCLOSE, tier ? 3 : 2, mon); s.hosts = "b0,b1"; v.push_back(s); }
@@ -708,6 +709,7 @@ std::vector<Scenario> scenarios_for(const std::string& prop, int tier) {
         { auto s = base("S1-write-and-read-fail", {RUN(), PUB(1, 1), PUB(2, 2), SUB({{"a", 1}})}, fam, tier ? 3 : 2, M_C11); v.push_back(s); s.name += "-tcp"; s.flavour = 1; v.push_back(s); }
         { auto s = base("S2-keepalive-timeout-meets-sentry", {RUN(), PUB(1, 1), PUB(2, 2)}, fam, tier ? 3 : 2, M_C11); s.keep_alive = 2; s.max_steps = 900; v.push_back(s); s.name += "-tcp"; s.flavour = 1; v.push_back(s); }
         { auto s = base("S3-two-brokers", {RUN(), PUB(1, 1), PUB(1, 2)}, fam, 2, M_C11); s.hosts = "b0,b1"; v.push_back(s); }
+        { auto s = base("S5-finenet-failures", {RUN(), PUB(1, 1), PUB(2, 2), SUB({{"a", 1}})}, F_FINENET | F_WR | F_RDCUT | F_REORDER | F_BCLOSE, 2, M_C11); v.push_back(s); s.name += "-tcp"; s.flavour = 1; v.push_back(s); }
         { auto s = base("S4-cancel-during-reconnect", {RUN(), PUB(1, 1)}, fam | F_INJECT | F_FINE, 2, M_C11 | M_C05); s.inject = CANCEL(); s.expect_all_success = false; v.push_back(s); }
     }
     else if (prop == "C12") {
@@ -760,6 +762,9 @@ std::vector<Scenario> scenarios_for(const std::string& prop, int tier) {
             std::vector<int> ix(cnt, 0);
             for (;;) { std::vector<uint8_t> rcs; for (int i : ix) rcs.push_back(codes[i]); bool keep = tier || cnt <= 2 || (ix[0] * 5 + ix[1] * 3 + ix[2] + (cnt > 3 ? ix[3] : 0)) % 4 == 0; if (keep) add(unsub, n, rcs);
                 int k = cnt - 1; while (k >= 0 && ++ix[k] == int(codes.size())) ix[k--] = 0; if (k < 0) break; } }
+        // sequential requests reuse packet id 1: an acknowledgement left over from the previous exchange must not complete the next one
+        { auto s = base("S-sequential-id-reuse", {RUN(), SUB({{"r/1", 1}}), BARRIER(), SUB({{"r/2", 2}}), BARRIER(), UNSUB({"r/1"}), BARRIER(), UNSUB({"r/2"})}, F_WR | F_REORDER | F_RDCUT | F_TAIL | F_DELAY, 2, M_C14 | M_C02);
+          s.broker.suback_script = {{0x01}, {0x87}, {0x02}, {0x00}, {0x80}}; s.broker.unsuback_script = {{0x00}, {0x11}, {0x87}, {0x00}}; s.broker.ack_props = true; v.push_back(s); }
         { auto s = base("S-all-options", {RUN()}, F_REORDER, 1, M_C14 | M_C02); for (int o = 0; o < 36; ++o) { int q = o % 3, nl = (o / 3) % 2, rap = (o / 6) % 2, rh = o / 12; s.script.push_back(SUB({{"opt/" + std::to_string(o), uint8_t((rh << 4) | (rap << 3) | (nl << 2) | q)}})); } s.max_steps = 2000; v.push_back(s); }
     }
     else if (prop == "C15") {
@@ -886,6 +891,7 @@ std::vector<Scenario> scenarios_for(const std::string& prop, int tier) {
             if (ph.on_type) { s.broker.hostile.enabled = true; s.broker.hostile.on_type = ph.on_type; s.broker.hostile.nth = ph.nth; s.broker.hostile.raw = raw; }
             else for (auto& a : s.script) if (a.k == Action::BRAW) a.payload = raw;
             s.max_steps = 400; s.expect_note = rep_hex(raw); v.push_back(s); };
+        for (auto& st_ : stale) { Ph ph{"idle-stale-ack-sub", {RUN(), WAIT_HS(1), A(Action::BRAW), SUB({{"a", 1}, {"b/#", 2}}), PUB(1, 1)}, 0, 0, ""}; add(ph, st_, "stale"); Ph pu{"idle-stale-ack-unsub", {RUN(), WAIT_HS(1), A(Action::BRAW), UNSUB({"a"}), PUB(2, 1)}, 0, 0, ""}; add(pu, st_, "stale"); }
         for (auto& st_ : stale) for (int q = 1; q <= 2; ++q) { Ph ph{"idle-stale-ack", {RUN(), WAIT_HS(1), A(Action::BRAW), PUB(q, 1), SUB({{"a", 1}, {"b/#", 2}})}, 0, 0, ""}; add(ph, st_, "stale"); add(ph, st_ + st_, "stale2"); }
         for (auto& ph : phases) {
             for (auto& x : strs) add(ph, x, "str");
